@@ -307,6 +307,12 @@ def r7_records_hold_the_cells_of_the_line(ctx, res):
         res.find(key, ad.module.loc(ad.node), f"_add_ili no longer defaults an absent status to 'active' with info.get('status', 'active'): {gets}")
 
 
+def r8_compressed_index_read_completely(ctx, res):
+    """an ILI index may be given compressed: what _ili.load reads is the whole decompressed file - the temporary file is closed
+    before its path is handed out (C07-R9 on project._get_decompressed)."""
+    from .c07 import r9_directory_dispatch_and_decompression
+    r9_directory_dispatch_and_decompression(ctx, res)
+
 RULES = [
     ('C19-R1', r1_write_set, 3),
     ('C19-R2', r2_upsert_shape, 6),
@@ -315,4 +321,5 @@ RULES = [
     ('C19-R5', r5_header, 2),
     ('C19-R6', r6_tab_separated_only, 3),
     ('C19-R7', r7_records_hold_the_cells_of_the_line, 2),
+    ('C19-R8', r8_compressed_index_read_completely, 2),
 ]
